@@ -1,7 +1,7 @@
 (* C04 — reverse proxy relays requests and responses faithfully: property theorems only.
    Each is closed by [exact] of a lemma proved in C04_Proofs.v and followed by Print Assumptions.
    Headers are Go maps, so statements are pointwise in the looked-up key (hlookup). *)
-Require Import V.Lib V.GoPath V.GoNet V.Gen_C04 V.C04_Model V.C04_Proofs.
+Require Import V.Lib V.GoPath V.GoNet V.Gen_C04 V.C04_Model V.C04_Proofs V.C04_TrailerProofs.
 Open Scope N_scope.
 
 (* ---- request direction: createUpstreamRequest ---- *)
@@ -462,3 +462,45 @@ Example C04_downstream_fn_cached_per_host_differs :
   nth_error (serve_seq_cached wit_seq_c false [] [wit_seq_x1; wit_seq_x2]) 1 <> Some (serve_one wit_seq_c false wit_seq_x2) /\
   nth_error (serve_seq_cached wit_seq_c false [] [wit_seq_x1; wit_seq_x2]) 0 = Some (serve_one wit_seq_c false wit_seq_x1).
 Proof. exact cached_downstream_fn_differs. Qed.
+
+(* ================= trailers that share their NAME with a response header ================= *)
+
+(* C04_trailers_spec asks that no announced trailer key is a key of the header map handed to the
+   writer.  A backend may send a field BOTH as a response header (a provisional value) and as an
+   announced trailer (the final value), and header_downstream rules may set such a name.  As long as
+   every trailer that arrives was announced, the conclusion holds WITHOUT that hypothesis: for every
+   header map, every body, every segmentation and flush timing the trailers written after the body
+   are exactly the backend's final trailers - ALL values of every key, the header's values of the
+   same name not among them (shallowCopyTrailers ASSIGNS the key). *)
+Theorem C04_trailers_shared_name_spec :
+  forall h b r bufsz mid,
+  client_hdr_ok h -> trailer_keys_ok_shared h b -> flush_interleave (map OWrite (copy_writes bufsz r)) mid ->
+  let s := rw_run true h (resp_ops_with b mid) in
+  rs_status s = Some (b_status b) /\
+  (b_announced b <> [] -> hlookup (rs_snap s) K_TRAILER = Some (b_announced b)) /\
+  (b_announced b <> [] \/ b_trailers b <> [] -> rs_chunking s = true) /\
+  (forall k, olist (hlookup (rw_trailers s) k) = olist (hlookup (final_trailers b) k)).
+Proof. exact trailers_shared_name_spec. Qed.
+Print Assumptions C04_trailers_shared_name_spec.
+
+Example C04_trailers_shared_name_nonvacuous :
+  client_hdr_ok wit_sh /\ trailer_keys_ok_shared wit_sh wit_sb /\ hlookup wit_sh (bs "X-T1"%string) = Some [bs "pending"%string] /\
+  hlookup (rw_trailers (rw_run true wit_sh (resp_ops wit_sb [bs "body"%string]))) (bs "X-T1"%string) = Some [bs "t1"%string] /\
+  hlookup (rs_snap (rw_run true wit_sh (resp_ops wit_sb [bs "body"%string]))) (bs "X-T1"%string) = Some [bs "pending"%string].
+Proof. exact trailers_shared_name_nonvacuous. Qed.
+
+(* ... but NOT once an unannounced trailer arrived too (finding F-C04-7): every trailer then travels
+   under the TrailerPrefix while the Trailer header still declares the announced key, and the writer
+   also sends what the header map holds under that key: the response header's value comes back as a
+   trailer value the backend never sent ([t1; pending] instead of [t1]). *)
+Theorem C04_trailers_shared_name_forced_refuted :
+  exists h b ws,
+    client_hdr_ok h /\ NoDup (b_announced b) /\ NoDup (map fst (b_trailers b)) /\ trailers_forced b = true /\
+    exists k, olist (hlookup (rw_trailers (rw_run true h (resp_ops b ws))) k) <> olist (hlookup (final_trailers b) k).
+Proof. exact trailers_shared_name_forced_refuted. Qed.
+Print Assumptions C04_trailers_shared_name_forced_refuted.
+
+Example C04_trailers_shared_name_forced_witness :
+  hlookup (rw_trailers (rw_run true wit_sh (resp_ops wit_sb_forced [bs "body"%string]))) (bs "X-T1"%string)
+  = Some [bs "t1"%string; bs "pending"%string].
+Proof. exact trailers_shared_name_forced_witness. Qed.
